@@ -85,6 +85,18 @@ def big_stack():
             pass
 
 
+def pmap(fn, items, workers=None):
+    """run independent harness cases on all cores; results come back in input order"""
+    from concurrent.futures import ThreadPoolExecutor
+    workers = workers or max(2, min(14, (os.cpu_count() or 2) - 2))
+    items = list(items)
+    with ThreadPoolExecutor(max_workers=workers) as ex:
+        # chunked, so that a consumer that stops early (enough failures) does not leave hundreds of cases queued
+        for i in range(0, len(items), 2 * workers):
+            for r in list(ex.map(fn, items[i:i + 2 * workers])):
+                yield r
+
+
 def run_lines(binary, text, timeout=1200, env=None):
     r = subprocess.run([binary], input=text, preexec_fn=big_stack, stdout=subprocess.PIPE, stderr=subprocess.PIPE, text=True, timeout=timeout, env=env)
     return r.returncode, r.stdout, r.stderr
@@ -98,6 +110,9 @@ def run_script(ctx, script_text, variant="adfh", timeout=120, env=None, name=Non
         f.write(script_text.replace("$W", d))
     e = dict(os.environ)
     e["ASAN_OPTIONS"] = "detect_leaks=0:abort_on_error=0:exitcode=99"
+    # per-command watchdog of the harness: a call that has not returned after this many seconds is reported as
+    # "crash sig=14" (no legitimate command takes more than a fraction of a second outside valgrind)
+    e["ADFH_ALARM"] = "60" if variant.endswith("vg") else ("25" if variant.endswith("asan") else "12")
     if env:
         e.update(env)
     try:
@@ -196,6 +211,13 @@ def load_findings(pid):
 def finish(ctx, proof, rule, level="proof", extra_cov=None, matches_finding=None, assumptions=None):
     """verdict logic of DESIGN.md section 2; prints VIOLATION / KNOWN-FINDING lines; writes evidence; returns exit code"""
     pid = ctx.pid
+    # the level recorded in the evidence is the one MANIFEST.json claims for this property (single source: tools/mkmanifest.py)
+    try:
+        for c in json.load(open(os.path.join(VERIF, "MANIFEST.json")))["checks"]:
+            if c["property_id"] == pid:
+                level = c["level_claimed"]["category"]
+    except Exception:
+        pass
     findings = load_findings(pid)
     new_fail = []
     suppressed = 0
